@@ -290,3 +290,36 @@ pub fn fnv(s: &str) -> u64 {
     }
     h
 }
+
+
+/// Owns a value and LEAKS it when dropped during a panic. The code under test may panic while it holds one of its own
+/// locks; destructors that take that (now poisoned) lock - TOI handles, the sender that owns them - would panic again
+/// while the first panic unwinds, and a second panic aborts the process: no verdict at all. Leaking is harmless here.
+pub struct LeakOnPanic<T>(pub Option<T>);
+
+impl<T> LeakOnPanic<T> {
+    pub fn new(v: T) -> Self {
+        LeakOnPanic(Some(v))
+    }
+}
+
+impl<T> std::ops::Deref for LeakOnPanic<T> {
+    type Target = T;
+    fn deref(&self) -> &T {
+        self.0.as_ref().unwrap()
+    }
+}
+
+impl<T> std::ops::DerefMut for LeakOnPanic<T> {
+    fn deref_mut(&mut self) -> &mut T {
+        self.0.as_mut().unwrap()
+    }
+}
+
+impl<T> Drop for LeakOnPanic<T> {
+    fn drop(&mut self) {
+        if std::thread::panicking() {
+            std::mem::forget(self.0.take());
+        }
+    }
+}
